@@ -177,15 +177,20 @@ RatNSDK(K) == ProductS(K, MC_ScalarsOne,
                        Scaled(IF K = 2 THEN MC_HAllNSD(2, -3..0, -2..2) ELSE MC_HAllNSD(3, -2..0, -1..1), {Q(1, 3), Q(1, 7)}),
                        Scaled(DefaultB(K), {Q(1, 3)}), {NoBoot}, DefaultTheta(K))
 
-MC_RatQuick  == RatQuickK(1) \cup RatQuickK(2) \cup RatQuickK(3) \cup MC_CompanionSet
-MC_Rat12     == RatK(1) \cup RatK(2) \cup RatNSDK(2) \cup MC_CompanionSet
-MC_Rat3      == RatK(3) \cup RatNSDK(3) \cup MC_CompanionSet
 MC_Quick     == QuickK(1) \cup QuickK(2) \cup QuickK(3) \cup MC_CompanionSet
-MC_Full1     == FullK(1) \cup MC_CompanionSet
-MC_Full2     == FullK(2) \cup MC_CompanionSet
-MC_Full3     == FullK(3) \cup MC_CompanionSet
-MC_NSD12     == NSDK(1) \cup NSDK(2) \cup MC_CompanionSet
-MC_NSD3      == NSDK(3) \cup MC_CompanionSet
 \* a handful of outcomes on which the three families disagree: enough for the seeded defects to show
 MC_Tiny      == Product(2, MC_ScalarsOne, DefaultH(2), DefaultB(2), MC_BootTwo(2), MC_Theta2) \cup MC_CompanionSet
+\* The other families are selected BY NAME (a generated root module defines `RunOutcomes == MC_Family("...")`):
+\* TLC evaluates every constant definition without parameters when it starts, whether the run uses it or not.
+MC_Family(f) ==
+    CASE f = "MC_Quick"    -> MC_Quick
+      [] f = "MC_RatQuick" -> RatQuickK(1) \cup RatQuickK(2) \cup RatQuickK(3) \cup MC_CompanionSet
+      [] f = "MC_Rat12"    -> RatK(1) \cup RatK(2) \cup RatNSDK(2) \cup MC_CompanionSet
+      [] f = "MC_Rat3"     -> RatK(3) \cup RatNSDK(3) \cup MC_CompanionSet
+      [] f = "MC_Full1"    -> FullK(1) \cup MC_CompanionSet
+      [] f = "MC_Full2"    -> FullK(2) \cup MC_CompanionSet
+      [] f = "MC_Full3"    -> FullK(3) \cup MC_CompanionSet
+      [] f = "MC_NSD12"    -> NSDK(1) \cup NSDK(2) \cup MC_CompanionSet
+      [] f = "MC_NSD3"     -> NSDK(3) \cup MC_CompanionSet
+      [] f = "MC_Tiny"     -> MC_Tiny
 =============================================================================
